@@ -169,23 +169,23 @@ def prepare_goto(h, log):
     return o
 
 
-def cbmc_cmd(goto, unwind, extra=()):
+def cbmc_cmd(goto, unwind, extra=(), slice_formula=True):
     cmd = ["cbmc"] + CBMC_FLAGS
     if unwind:
         cmd += ["--unwind", str(unwind)]
-    cmd += ["--sat-solver", "cadical", "--slice-formula", goto, "--verbosity", "9", "--json-ui"]
+    cmd += ["--sat-solver", "cadical"] + (["--slice-formula"] if slice_formula else []) + [goto, "--verbosity", "9", "--json-ui"]
     cmd += list(extra)
     return cmd
 
 
-def run_cbmc(goto, unwind, timeout, mem_gb, out_json, extra=()):
+def run_cbmc(goto, unwind, timeout, mem_gb, out_json, extra=(), slice_formula=True):
     def lim():
         resource.setrlimit(resource.RLIMIT_AS, (mem_gb << 30, mem_gb << 30))
         os.setsid()
 
     t0 = time.time()
     with open(out_json, "w") as f:
-        p = subprocess.Popen(cbmc_cmd(goto, unwind, extra), stdout=f, stderr=subprocess.STDOUT,
+        p = subprocess.Popen(cbmc_cmd(goto, unwind, extra, slice_formula), stdout=f, stderr=subprocess.STDOUT,
                              preexec_fn=lim)
         try:
             rc = p.wait(timeout=timeout)
